@@ -28,6 +28,7 @@ import (
 	"strings"
 	"sync"
 	"sync/atomic"
+	"syscall"
 	"testing"
 	"time"
 
@@ -729,6 +730,7 @@ func Flush() {
 var (
 	curCase  atomic.Pointer[Case]
 	curSince atomic.Int64
+	curSeq   atomic.Int64
 	hangSecs = 30
 )
 
@@ -736,7 +738,7 @@ var saveCurrent = os.Getenv("VERIF_SAVE_CURRENT") != ""
 
 func beginCase(c *Case) {
 	curCase.Store(c)
-	curSince.Store(time.Now().UnixNano())
+	curSeq.Add(1)
 	if saveCurrent {
 		// the race detector halts the process on the first report: keep the
 		// running case on disk so that the driver can name it
@@ -762,17 +764,24 @@ func startWatchdog() {
 		return
 	}
 	go func() {
+		// The bound is user-mode CPU time consumed by this process while one and the same case is current, not wall
+		// clock: a starved shard on a busy machine, a paused VM or a stepped clock must never look like a hang.
+		var lastSeq int64 = -1
+		var cpuAtFirstSeen time.Duration
 		for {
 			time.Sleep(time.Second)
 			c := curCase.Load()
-			if c == nil {
+			seq := curSeq.Load()
+			now := processCPU()
+			if c == nil || seq != lastSeq {
+				lastSeq, cpuAtFirstSeen = seq, now
 				continue
 			}
-			if time.Since(time.Unix(0, curSince.Load())) > time.Duration(hangSecs)*time.Second {
+			if now-cpuAtFirstSeen > time.Duration(hangSecs)*time.Second {
 				dir := replayDir()
 				_ = os.MkdirAll(dir, 0o755)
 				cc := *c
-				cc.Error = fmt.Sprintf("hang-candidate: case still running after %d s", hangSecs)
+				cc.Error = fmt.Sprintf("hang-candidate: case still running after %d s of CPU time", hangSecs)
 				data, _ := json.MarshalIndent(&cc, "", " ")
 				path := filepath.Join(dir, fmt.Sprintf("hang-candidate-%d.json", shard))
 				_ = os.WriteFile(path, data, 0o644)
@@ -782,6 +791,14 @@ func startWatchdog() {
 			}
 		}
 	}()
+}
+
+func processCPU() time.Duration {
+	var ru syscall.Rusage
+	if syscall.Getrusage(syscall.RUSAGE_SELF, &ru) != nil {
+		return 0
+	}
+	return time.Duration(ru.Utime.Nano()) // user time only: system time balloons under memory / scheduler contention
 }
 
 // Describe records the non-triviality rule and the assumptions for the evidence file.
